@@ -211,7 +211,7 @@ func (w *world) vmKey(info *vmInfo) string {
 			sb.WriteString("nil,")
 			continue
 		}
-		sb.WriteString(val.Snapshot(o) + ",")
+		sb.WriteString(val.StateKey(o) + ",")
 	}
 	return sb.String()
 }
@@ -231,7 +231,7 @@ func (w *world) globalsKey() string {
 			sb.WriteString(n + "=nil;")
 			continue
 		}
-		sb.WriteString(n + "=" + val.Snapshot(o) + ";")
+		sb.WriteString(n + "=" + val.StateKey(o) + ";")
 	}
 	return sb.String()
 }
